@@ -6,6 +6,7 @@ import (
 
 	v1 "sigs.k8s.io/karpenter/pkg/apis/v1"
 	"sigs.k8s.io/karpenter/pkg/cloudprovider"
+	"sigs.k8s.io/karpenter/pkg/scheduling"
 	"sigs.k8s.io/karpenter/pkg/test"
 
 	"verifharness/kit"
@@ -112,9 +113,79 @@ func witnesses(c *kit.Ctx) {
 	p7 := plainPod("w7", allocCPU(last))
 	required(p7, []corev1.NodeSelectorRequirement{expr(sk.GhostKey, corev1.NodeSelectorOpNotIn, "x")})
 	judgeWorld(c, &sk.World{Catalog: cat2, Pools: []*v1.NodePool{pool}, DaemonSets: ds15, Pods: []*corev1.Pod{p7}}, sk.RunCfg{Workers: 1}, -1, false)
+
+	// coverage: reserved capacity of 1 and two pods that each need a whole node: the second claim finds a compatible
+	// reserved offering it cannot reserve (strict mode => ReservedOfferingError, no relaxation, pod deferred)
+	rit := reservedType()
+	pa, pb := plainPod("w8", allocCPU(rit)), plainPod("w9", allocCPU(rit))
+	judgeWorld(c, &sk.World{Catalog: []*cloudprovider.InstanceType{rit}, Pools: []*v1.NodePool{pool}, Pods: []*corev1.Pod{pa, pb}}, sk.RunCfg{Workers: 1}, -1, false)
+	// coverage: the launch request is truncated to MaxInstanceTypes; under the strict policy a claim whose minValues no longer
+	// hold after truncation is dropped and its pods reported
+	two := 2
+	mvPool := test.NodePool(v1.NodePool{ObjectMeta: metav1.ObjectMeta{Name: "pool-mv", UID: "uid-pool-mv"}, Spec: v1.NodePoolSpec{Template: v1.NodeClaimTemplate{Spec: v1.NodeClaimTemplateSpec{
+		Requirements: []v1.NodeSelectorRequirementWithMinValues{{Key: corev1.LabelInstanceTypeStable, Operator: corev1.NodeSelectorOpExists, MinValues: &two}}}}}})
+	judgeWorld(c, &sk.World{Catalog: cat2, Pools: []*v1.NodePool{mvPool}, Pods: []*corev1.Pod{plainPod("w11", 200)}}, sk.RunCfg{Workers: 1, MaxInstanceTypes: 1}, -1, false)
+	// coverage: in-tree EBS volumes count against the ebs.csi.aws.com attach limit of the node: limit 1, one EBS volume
+	// already attached by a bound pod, the pending pod brings another one
+	ebsWorld(c, catalog, pool)
+	// ... and with the ReservedCapacity feature gate off nothing is reserved
+	judgeWorld(c, &sk.World{Catalog: []*cloudprovider.InstanceType{reservedType()}, Pools: []*v1.NodePool{pool}, Pods: []*corev1.Pod{plainPod("w10", 500)}}, sk.RunCfg{Workers: 1, NoReservedCapacity: true}, -1, false)
 }
 
 func allocCPU(it *cloudprovider.InstanceType) int64 {
 	a := it.Allocatable()
 	return a.Cpu().MilliValue()
+}
+
+// reservedType: one instance type with a single reserved offering of capacity 1 (no other offering), as the provider
+// contract describes it.
+func reservedType() *cloudprovider.InstanceType {
+	for seed := uint64(1); ; seed++ {
+		for _, it := range sk.GenCatalogOpts(kit.NewRand(seed), 4, true) {
+			var keep cloudprovider.Offerings
+			for _, o := range it.Offerings {
+				if o.CapacityType() == v1.CapacityTypeReserved && len(keep) == 0 {
+					o.ReservationCapacity = 1
+					keep = append(keep, o)
+				}
+			}
+			if len(keep) == 1 {
+				it.Offerings = keep
+				it.Requirements.Add(scheduling.NewRequirement(cloudprovider.ReservationIDLabel, corev1.NodeSelectorOpIn, keep[0].ReservationID()))
+				return it
+			}
+		}
+	}
+}
+
+func ebsWorld(c *kit.Ctx, catalog []*cloudprovider.InstanceType, pool *v1.NodePool) {
+	for seed := uint64(1); seed < 2000; seed++ {
+		r := kit.NewRand(seed)
+		w := &sk.World{Catalog: catalog, Pools: []*v1.NodePool{pool}}
+		w.Nodes = sk.GenNodes(r, 1, w)
+		if len(w.Nodes) != 1 || w.Nodes[0].Kind != "ready" || len(w.Nodes[0].Bound) == 0 || len(w.Nodes[0].Node.Spec.Taints) != 0 {
+			continue
+		}
+		sk.GenVolumesOpts(r, w, 8, true)
+		var ebs []string
+		for _, name := range w.VolOrder {
+			if vs := w.Vols[name]; vs.PV != nil && vs.Driver == sk.DriverEBS && vs.Terms[0][0].Vals[0] == w.Nodes[0].Node.Labels[corev1.LabelTopologyZone] {
+				ebs = append(ebs, name)
+			}
+		}
+		if len(ebs) < 2 {
+			continue
+		}
+		w.CSILimits = map[string]map[string]int32{w.Nodes[0].Node.Name: {sk.DriverEBS: 1}}
+		vol := func(name string) corev1.Volume {
+			return corev1.Volume{Name: "data", VolumeSource: corev1.VolumeSource{PersistentVolumeClaim: &corev1.PersistentVolumeClaimVolumeSource{ClaimName: name}}}
+		}
+		w.Nodes[0].Bound[0].Spec.Volumes = []corev1.Volume{vol(ebs[0])}
+		p := plainPod("w12", 100)
+		p.Spec.Volumes = []corev1.Volume{vol(ebs[1])}
+		w.Pods = []*corev1.Pod{p}
+		c.Count("B.extra.witness-ebs-attach-limit")
+		judgeWorld(c, w, sk.RunCfg{Workers: 1}, -1, false)
+		return
+	}
 }
